@@ -256,6 +256,10 @@ def decide(pid, tier, seed):
             inv.undecided.append(f"code under no contract was modified: {e} (its text differs from inventory.json; nothing is proved about it, so {pid} cannot be answered 'holds' for this tree)")
         for e in inventory.changed_outside_own_units(pid, REPO, cfg, props):
             inv.undecided.append(f"a function of a file {pid} is anchored in was modified, and none of {pid}'s own units has it under contract: {e} (other properties' checks may judge the change; this one cannot answer 'holds')")
+        run_v = list(pc.get("verus", [])) + sorted(extra)
+        run_k = list(pc.get("kani", [])) + sorted(unitdeps.kani_assumed(set(own) | extra))
+        for e in inventory.changed_in_dependency_crates(pid, REPO, cfg, props, run_v, run_k):
+            inv.undecided.append(f"code of a workspace crate this property's code is built on was modified, and none of the units this check runs has it under contract: {e} (another property's check may judge the change; {pid} cannot be answered 'holds' for this tree)")
         for e in inventory.modified_manifests(pid, REPO, cfg, props):
             inv.undecided.append(f"crate manifest changed: {e} (features and dependencies decide which cfg-gated code is compiled; the contracts were written for the recorded configuration, so {pid} cannot be answered 'holds' for this tree)")
         if dep_scan_error:
